@@ -85,7 +85,7 @@ def sym_component(i, vp='antoine', uq=True, name=None):
                       V('hd' + s, d['hd']))
     comp = pv.Component(
         name=name or ('comp%d' % i), molecular_weight=1.0,
-        vapour_pressure_constants=VaporPressureConstants(a=1, b=1, c=1, type=vp if vp in ('antoine', 'frost') else 'antoine'),
+        vapour_pressure_constants=VaporPressureConstants(a=1, b=1, c=1, type=fresh_str(vp if vp in ('antoine', 'frost') else 'antoine')),
         heat_capacity_constants=HeatCapacityConstants(a=1, b=1, c=1, d=1))
     comp.molecular_weight = M
     k = comp.vapour_pressure_constants
@@ -135,9 +135,18 @@ def sym_mixture(nrtl='one', uniquac=True, vp1='antoine', vp2='antoine', uq1=True
     return m, txt
 
 
+def fresh_str(s):
+    """an equal but not identical string object (what a value read from JSON / CSV / user input is): an identity test
+    (`is`) on an enum-like string then takes the other branch during tracing and shows up in the trace"""
+    if not isinstance(s, str) or not s:
+        return s
+    t = ''.join([s[:1], s[1:]])
+    return t
+
+
 def sym_composition(leaf, value, ctype):
     p = V(leaf, value)
-    c = pv.Composition(p=0.5, type=ctype)
+    c = pv.Composition(p=0.5, type=fresh_str(ctype))
     c.p = p      # bypass the validator for the *input* (the leaf is constrained by hypotheses)
     watch(c)
     return c, '(Build_Composition N %s %s)' % (leaf, 'Molar' if ctype == 'molar' else 'Weight')
@@ -213,7 +222,7 @@ def app(template, syms, val):
 
 
 def sym_permeance(leaf, value, units='kg/(m2*h*kPa)'):
-    p = pv.Permeance(value=1.0, units=units)
+    p = pv.Permeance(value=1.0, units=fresh_str(units))
     p.value = V(leaf, value)
     watch(p)
     return p, '(Build_Permeance N %s %s)' % (leaf, units_text(units))
